@@ -158,6 +158,7 @@ fn main() {
     let _ = report::KNOWN_CLASSES.set(load_known(check.id).into_iter().map(|k| k.0).collect());
     if let Some(sh) = shard {
         let mut stats = Stats::default();
+        util::watchdog_start(out.as_deref().expect("--out"));
         (check.run)(tier, sh, &mut stats);
         let js = stats.to_shard_json(check.id);
         let out = out.expect("--out");
